@@ -144,6 +144,7 @@ class World:
         ns = len(sb) - 1
         self.spec = {0: Interface}
         self.inst = {}
+        self.subinst = {}
         kids = set()
         for n in range(1, ns + 1):
             kids.update(fget_s(sb, n))
@@ -160,6 +161,10 @@ class World:
                 s.__bases__ = bases
                 self.spec[n] = s
                 self.inst[n] = K()
+                # for super() proxies: an instance of a subclass; what the
+                # proxy super(Sub, x) provides is what K implements
+                Sub = type('Sub%d' % n, (K,), {})
+                self.subinst[n] = (Sub, Sub())
             else:
                 self.spec[n] = InterfaceClass('R%d' % n, bases,
                                               __module__=mod)
@@ -297,6 +302,12 @@ class World:
         vs = ['lookup', 'lookup_list', 'lookup_lazy', 'multi']
         if len(req) == 1:
             vs += ['lookup1', 'hook', 'queryAdapter']
+        if req and all(s in self.subinst for s in req):
+            # the looked-up objects are super() proxies: the factory must be
+            # called with the underlying objects
+            vs += ['multi_super']
+            if len(req) == 1:
+                vs += ['hook_super', 'queryAdapter_super']
         return vs
 
     def one_lookup(self, via, g, req, p, name):
@@ -328,13 +339,20 @@ class World:
         if via == 'lookup1':
             return self.vid(r.lookup1(specs[0], P, name, *dargs)), None
         objs = [self.ob(s) for s in req]
+        if via.endswith('_super'):
+            via = via[:-6]
+            objs = [self.subinst[s][1] for s in req]
+            args = [super(self.subinst[s][0], self.subinst[s][1])
+                    for s in req]
+        else:
+            args = objs
         if via in ('hook', 'queryAdapter'):
             if via == 'hook':
-                res = r.adapter_hook(P, objs[0], name, *dargs)
+                res = r.adapter_hook(P, args[0], name, *dargs)
             else:
-                res = r.queryAdapter(objs[0], P, name, *dargs)
+                res = r.queryAdapter(args[0], P, name, *dargs)
         else:
-            res = r.queryMultiAdapter(objs, P, name, *dargs)
+            res = r.queryMultiAdapter(args, P, name, *dargs)
         if res is self.dflt:
             return ('default', None)
         if isinstance(res, Result):
@@ -361,8 +379,9 @@ class World:
                                         for a in adm)
             else:
                 ok = got in adm
-                if ok and got != NONE and via in ('hook', 'queryAdapter',
-                                                  'multi') \
+                if ok and got != NONE and via in (
+                        'hook', 'queryAdapter', 'multi', 'hook_super',
+                        'queryAdapter_super', 'multi_super') \
                         and self.val(got).ret_none:
                     ok = False
             if not ok or bad:
@@ -484,6 +503,14 @@ class World:
                 if s is None or s != self.val(v):
                     mism(ctx, 'subscribed(g=%d, %r, %d)' % (g, e, v), v,
                          None if s is None else self.vid(s))
+                # subscribers are found by EQUALITY: an equal object that
+                # was never subscribed itself finds the stored one
+                twin = V(77000 + v, self.val(v).eq)
+                s = r.subscribed(self.req(e['req']), self.prov[e['prov']],
+                                 twin)
+                if s is None or s != twin:
+                    mism(ctx, 'subscribed(g=%d, %r, <equal to %d>)' % (
+                        g, e, v), v, None if s is None else self.vid(s))
 
     def absent_probe(self, keys, obs, ctx):
         """registered()/subscribed() for keys that are NOT live"""
